@@ -12,7 +12,7 @@ import json, os, subprocess, hashlib
 # Which repairs are applied to /repo.  The model follows the code as it stands for every defect NOT listed here.
 # After applying fixes/F6.patch, F7.patch, F8.patch, F9d.patch to /repo set  FIXED = ["F6", "F7", "F8", "F9"]  (any subset works)
 # and flip the corresponding entries of findings/C09.json / findings/C10.json to "fixed".
-FIXED = []
+FIXED = ["F6", "F7", "F8", "F9"]   # F6 d4fce0c, F7 bac08ce, F8 a79ea45, F9d 788ba4a are in /repo
 # ------------------------------------------------------------------------------------------------------------------------------
 
 SAN_FLAGS = ["-O0", "-fsanitize=address,undefined", "-fno-sanitize-recover=all"]
